@@ -170,6 +170,20 @@ def claimInTime (pre : State) (op : Op) (accepted : Bool) : Bool :=
                   | none => false)
   | _ => true
 
+/-- the "if" direction: a well-formed claim presenting the preimage bound to the contract's
+timestamp, on an open contract whose payout the ledger can carry (`claimFunds`: the escrow covers
+a plain / outgoing contract, the asset counters admit an incoming one), is accepted -/
+def claimLiveOk (pre : State) (op : Op) (accepted : Bool) : Bool :=
+  match op with
+  | .claim _ id secret =>
+    accepted ||
+      (match AMap.get? pre.htlcs id with
+       | some c =>
+         !(c.state == .open && hexOk64 id && hexOk64 secret && genLock secret c.timestamp == c.hashLock &&
+           (match claimFunds pre c with | .ok _ => true | .error _ => false))
+       | none => true)
+  | _ => true
+
 /-- no stale queue entry: everything queued is in the future -/
 def queueFutureOk (s : State) : Bool := s.queue.all fun q => decide (s.height < q.1)
 
